@@ -871,6 +871,24 @@ static void exec_line(char *line) {
         struct rlimit rl = {strtoul(tok[1], NULL, 10), strtoul(tok[1], NULL, 10)};
         signal(SIGXFSZ, SIG_IGN);
         setrlimit(RLIMIT_FSIZE, &rl);
+    } else if (!strcmp(c, "fsizelimit")) {
+        /* file size limit with SIGXFSZ left at its default disposition (fatal) */
+        struct rlimit rl = {strtoul(tok[1], NULL, 10), strtoul(tok[1], NULL, 10)};
+        setrlimit(RLIMIT_FSIZE, &rl);
+    } else if (!strcmp(c, "nofilelimit")) {
+        /* descriptor table full: soft RLIMIT_NOFILE = highest open descriptor + 1 + <extra>; lower free slots are plugged */
+        int extra = atoi(tok[1]), hi = 0;
+        for (int fd = 0; fd < 1024; fd++)
+            if (fcntl(fd, F_GETFD) != -1) hi = fd;
+        for (int fd = 0; fd < hi; fd++)
+            if (fcntl(fd, F_GETFD) == -1) {
+                int n = open("/dev/null", O_RDONLY);
+                if (n >= 0 && n != fd) { dup2(n, fd); close(n); }
+            }
+        struct rlimit rl;
+        getrlimit(RLIMIT_NOFILE, &rl);
+        rl.rlim_cur = hi + 1 + extra;
+        setrlimit(RLIMIT_NOFILE, &rl);
     } else if (!strcmp(c, "nosinks")) g_sample_sinks = 0;
     else if (!strcmp(c, "nostate")) g_sample_state = 0;
     else if (!strcmp(c, "stdin")) {
